@@ -133,6 +133,10 @@ private:
    */
   void loadEdgeDest(std::ifstream& graphFile, uint64_t edgeStart,
                     uint64_t numEdgesToLoad, uint64_t numGlobalNodes) {
+    // save edge offset of this graph for later use; needed even when the
+    // range has no edges, since edgeBegin/edgeEnd subtract it
+    edgeOffset = edgeStart;
+
     if (numEdgesToLoad == 0) {
       return;
     }
